@@ -2,6 +2,7 @@ package main
 
 import (
 	"bufio"
+	"bytes"
 	"encoding/json"
 	"errors"
 	"fmt"
@@ -676,6 +677,79 @@ func errorKey(perr, lerr error, raw []lexer.Token) string {
 	return "?"
 }
 
+// traceLines turns the text written by participle.Trace into a JSON list of {d, k, v}: nesting depth, node kind, the peeked
+// token's text.  Lines of parenthesis-only groups (group{n}) are dropped and the depths below them re-based.
+func traceLines(text string) string {
+	type line struct {
+		D int    `json:"d"`
+		K string `json:"k"`
+		V string `json:"v"`
+	}
+	out := []line{}
+	type open struct {
+		depth int
+		once  bool
+	}
+	var stack []open
+	for _, l := range strings.Split(text, "\n") {
+		if l == "" {
+			continue
+		}
+		sp := 0
+		for sp < len(l) && l[sp] == ' ' {
+			sp++
+		}
+		rest := l[sp:]
+		val, err := strconv.QuotedPrefix(rest)
+		if err != nil {
+			return `[{"d":-1,"k":"unparsed","v":""}]`
+		}
+		gs := strings.TrimPrefix(rest[len(val):], " ")
+		v, _ := strconv.Unquote(val)
+		d := sp / 2
+		for len(stack) > 0 && stack[len(stack)-1].depth >= d {
+			stack = stack[:len(stack)-1]
+		}
+		onces := 0
+		for _, o := range stack {
+			if o.once {
+				onces++
+			}
+		}
+		kind := "prod"
+		switch {
+		case gs == "sequence{}":
+			kind = "seq"
+		case gs == "disjunction{}":
+			kind = "alt"
+		case gs == "group{n}":
+			kind = "once"
+		case strings.HasPrefix(gs, "group{"):
+			kind = "grp"
+		case gs == "capture{}":
+			kind = "cap"
+		case strings.HasPrefix(gs, "reference{"):
+			kind = "ref"
+		case strings.HasPrefix(gs, "literal{"):
+			kind = "lit"
+		case gs == "negation{}":
+			kind = "neg"
+		case gs == "lookaheadGroup{}":
+			kind = "look"
+		case gs == "URoot" || gs == "U0" || gs == "U1" || gs == "U2" || gs == "U3":
+			kind = "union"
+		case strings.HasSuffix(gs, "PWord"):
+			kind = "user"
+		}
+		stack = append(stack, open{d, kind == "once"})
+		if kind != "once" {
+			out = append(out, line{d - onces, kind, v})
+		}
+	}
+	b, _ := json.Marshal(out)
+	return string(b)
+}
+
 func parseEvents(args []string) error {
 	f, err := os.Open(args[0])
 	if err != nil {
@@ -720,7 +794,18 @@ func parseEvents(args []string) error {
 					_, perr := b.p.ParseString("fn", in.S, participle.AllowTrailing(b.trailing))
 					er = errorKey(perr, lerr, raw)
 				}()
-				fmt.Fprintf(w, "%s\t%d\t%d\t%s\t%s\n", g.ID, k, i, sb.String(), er)
+				evs := sb.String()
+				// the node-level trace of the same parse (participle.Trace), once-groups dropped and depths re-based
+				tr := "[]"
+				func() {
+					var buf bytes.Buffer
+					defer func() {
+						_ = recover() // (a grammar bug panics: the lines printed so far are the trace)
+						tr = traceLines(buf.String())
+					}()
+					_, _ = b.p.ParseString("fn", in.S, participle.AllowTrailing(b.trailing), participle.Trace(&buf))
+				}()
+				fmt.Fprintf(w, "%s\t%d\t%d\t%s\t%s\t%s\n", g.ID, k, i, evs, er, tr)
 			}
 		}
 	}
